@@ -13,16 +13,19 @@
      diag_index_in_range_line_sites_lemma   EVERY SyntaxError of the model but "stmt:python-syntax" carries an
                                index < len(lines), for every oracle.  The dummy index 0 of the no-line
                                sites is in range too, because such a diagnostic needs at least one line.
-     diag_index_in_range_lemma ... and "stmt:python-syntax" too (no site is excluded: `located` is the constant
-                               true) WHEN Python blames a line of the text it was given (errline_inside pp:
-                               offset <= number of line feeds of the statement) and the lines are lines of
-                               source.split("\n") (no line feed inside a line).
-     stmt_index_past_end_refuted_lemma   without that premise it is FALSE, of the model and of the real compiler:
-                               core.py adds `e.lineno - 1` unclamped, and CPython counts a bare carriage return
-                               inside the statement as a line break (finding F14c; witness replayed on /repo)
+     diag_index_in_range_lemma ... and "stmt:python-syntax" too: EVERY SyntaxError, for every oracle and every line
+                               list (no site is excluded: `located` is the constant true).  Since fix F14c core.py
+                               clamps the offset Python blames to the lines the statement consumed.
+     stmt_index_clamped_regression_lemma   the F14c witness (CPython counts a bare carriage return inside the statement
+                               as a line break; before the fix the compiler said "on line 11" of a 4-line story):
+                               the index is now the `~` line, inside the statement (replayed: "on line 2")
+     clamp_is_identity_lemma   the clamp changes nothing when Python blames a line of the text it was given
+                               (errline_inside: offset <= number of line feeds) and the lines are lines of
+                               source.split("\n")
      diag_classified_lemma     every SyntaxError (site, i) of parse_real is of one of five kinds
-                                 (s) site = "stmt:python-syntax": a `~` statement starts on some line k, Python's
-                                     parser rejects the assembled statement, and i = k + the offset Python blames
+                                 (s) site = "stmt:python-syntax": a `~` statement starts on some line k and
+                                     consumes n lines, Python's parser rejects the assembled statement, and
+                                     i = k + min (the offset Python blames) (n - 1)
                                      (stmt_blamed; exact, for every oracle)
                                or i < len(lines) and
                                  (a) line i exists and `culprit site` holds of it        (located, right line)
@@ -40,9 +43,9 @@
                                kind (a) now: c_content / choice_text_rejected.)
      every_site_is_known_lemma every site name parse_real can produce is in one of the four lists main_sites
                                (26), block_sites (14), content_sites (2), call_sites (8)
-     culprit_stmt_site_lemma         "stmt:python-syntax", under the two premises of diag_index_in_range_lemma: line i
-                               lies inside the statement that starts at a `~` line k <= i < k + consumed
-                               (inside_statement), and k + consumed <= len(lines)
+     culprit_stmt_site_lemma         "stmt:python-syntax", for every oracle and every line list: line i lies inside the
+                               statement that starts at a `~` line k <= i < k + consumed (inside_statement), and
+                               k + consumed <= len(lines)
      culprit_all_line_sites_lemma    every site but the "call:*" ones: kind (a), (s), (b) [block sites] or (c) [content]
      culprit_covered_sites_lemma     covered = main_sites + block_sites: kind (a), (s), or (b) for a block site
      culprit_main_sites_lemma        the 26 main-loop sites: kind (a), or (s) for "stmt:python-syntax"
@@ -66,9 +69,11 @@
      content:braces, content:nesting-depth when raised inside an @if branch or a @for body
                                kind (c): _append_text_lines / parse_choice_line are called there without an index.
      every block site when raised while a loop body is re-parsed: kind (b).
-   stmt:python-syntax          the real compiler reports `i + (e.lineno - 1 if e.lineno else 0)`: the continuation line
-                               Python blames.  The model says the same through the oracle py_stmt_errline
-                               (Compiler/ParseBase.v); kind (s) restates that Python rejected the assembled statement.
+   stmt:python-syntax          the real compiler reports `i + min(max(py_offset, 0), lines_consumed - 1)` with
+                               py_offset = `e.lineno - 1 if e.lineno else 0`: the continuation line Python blames, kept
+                               inside the statement (fix F14c).  The model says the same through the oracle
+                               py_stmt_errline (Compiler/ParseBase.v); kind (s) restates that Python rejected the
+                               assembled statement.
    What ties the model's index to the real compiler's: the correspondence runs of C11/C12 compare only the exception
    class of a diagnostic; harness/diag_index_tie.py compares the index (real "on line N" = model index + 1 for kinds
    (a), (s), (b); no line in the message for kinds (c), (d)) on generated malformed stories, with the oracle
@@ -1324,15 +1329,16 @@ Definition raised_in_block (lines : list string) (s : string) : Prop :=
      (is_for_line (strip l0) = true /\ extract_loop_block_real lines i0 = PDiag (DSyntax s 0))).
 
 (* kind (s): a `~` statement starts on line k, Python's parser rejects the assembled statement (cc, n lines
-   consumed) and blames its line `off` (0-based): the index is k + off, as core.py computes it
-   (`error_line = i + (e.lineno - 1 if e.lineno else 0)`, not clamped) *)
+   consumed) and blames the line py_stmt_errline pp cc (0-based) of the text it was given: the index is k + off with
+   off = min (py_stmt_errline pp cc) (n - 1), as core.py computes it since fix F14c
+   (`error_line = i + min(max(py_offset, 0), lines_consumed - 1)`) *)
 Definition stmt_site : string := "stmt:python-syntax".
 Definition stmt_rejected_at (pp : pyparse) (lines : list string) (k off n : nat) : Prop :=
   exists l code cm cc,
     nth_error lines k = Some l /\ startswith l "~ " = true /\
     strip_inline_comment (strip (drop 2 l)) = (code, cm) /\
     extract_multiline_expression lines k code = (cc, n) /\
-    py_stmt_ok pp cc = false /\ off = py_stmt_errline pp cc.
+    py_stmt_ok pp cc = false /\ off = Nat.min (py_stmt_errline pp cc) (n - 1).
 Definition stmt_blamed (pp : pyparse) (lines : list string) (i : nat) : Prop :=
   exists k off n, stmt_rejected_at pp lines k off n /\ i = k + off.
 
@@ -1364,29 +1370,8 @@ Proof.
     rewrite H2, H3, H4. reflexivity.
 Qed.
 
-(* Python blames a line of the text it was given: the offset is at most the number of line feeds of the statement.
-   (True of CPython for statements without a bare carriage return -- harness/diag_index_tie.py checks it on every
-   rejected statement; false with one: stmt_index_past_end_refuted_lemma.) *)
-Definition errline_inside (pp : pyparse) : Prop :=
-  forall code, py_stmt_ok pp code = false -> py_stmt_errline pp code <= count_nl code.
-
-Lemma stmt_blamed_inside : forall pp lines i,
-  errline_inside pp -> Forall no_nl lines -> stmt_blamed pp lines i -> inside_statement lines i.
-Proof.
-  intros pp lines i Hpp HF (k & off & n & (l & code & cm & cc & Hn & Hs & Hsic & Hemx & Hrej & ->) & ->).
-  assert (Hk : k < length lines) by (apply nth_error_Some; rewrite Hn; discriminate).
-  assert (Hl : no_nl l) by (rewrite Forall_forall in HF; apply HF; eapply nth_error_In; eauto).
-  assert (Hcode : no_nl code).
-  { pose proof (stmt_code_no_nl l Hl) as H. rewrite Hsic in H. exact H. }
-  pose proof (emx_count_nl _ _ _ _ _ HF Hcode Hemx) as Hcnt.
-  destruct (emx_extent _ _ _ _ _ Hk Hemx) as [Hn1 Hext].
-  pose proof (Hpp cc Hrej) as Hoff.
-  exists k, l. unfold stmt_consumed. rewrite Hsic. cbn [fst]. rewrite Hemx. cbn [snd].
-  repeat split; auto; lia.
-Qed.
-
-(* what the candidate patch proposed_fixes/F14c does (`i + min(max(offset, 0), lines_consumed - 1)`): a clamped
-   offset stays inside the statement for EVERY answer of Python's parser, on every line list *)
+(* what fix F14c does (`i + min(max(offset, 0), lines_consumed - 1)`): a clamped offset stays inside the statement
+   for EVERY answer of Python's parser, on every line list *)
 Lemma clamped_stmt_index_inside_lemma : forall lines k l off,
   nth_error lines k = Some l -> startswith l "~ " = true ->
   inside_statement lines (k + Nat.min off (stmt_consumed lines k l - 1)).
@@ -1397,6 +1382,36 @@ Proof.
   destruct (extract_multiline_expression lines k (fst (strip_inline_comment (strip (drop 2 l))))) as [cc n] eqn:E.
   destruct (emx_extent _ _ _ _ _ Hk E) as [Hn1 Hext].
   exists k, l. unfold stmt_consumed. rewrite E. cbn [snd]. repeat split; auto; lia.
+Qed.
+
+(* ... hence kind (s) puts the index inside the statement: no premise on Python's parser or on the lines *)
+Lemma stmt_blamed_inside : forall pp lines i, stmt_blamed pp lines i -> inside_statement lines i.
+Proof.
+  intros pp lines i (k & off & n & (l & code & cm & cc & Hn & Hs & Hsic & Hemx & Hrej & ->) & ->).
+  pose proof (clamped_stmt_index_inside_lemma lines k l (py_stmt_errline pp cc) Hn Hs) as H.
+  unfold stmt_consumed in H. rewrite Hsic in H. cbn [fst] in H. rewrite Hemx in H. cbn [snd] in H. exact H.
+Qed.
+
+(* Python blames a line of the text it was given: the offset is at most the number of line feeds of the statement.
+   (True of CPython for statements without a bare carriage return -- harness/diag_index_tie.py counts the rejected
+   statements for which it is not.)  Then, on lines of source.split("\n"), the clamp is the identity: the index is
+   the `~` line + the offset Python blames, as before fix F14c. *)
+Definition errline_inside (pp : pyparse) : Prop :=
+  forall code, py_stmt_ok pp code = false -> py_stmt_errline pp code <= count_nl code.
+
+Lemma clamp_is_identity_lemma : forall pp lines k off n,
+  errline_inside pp -> Forall no_nl lines -> stmt_rejected_at pp lines k off n ->
+  exists cc, extract_multiline_expression lines k
+               (fst (strip_inline_comment (strip (drop 2 (nth k lines EmptyString))))) = (cc, n) /\
+             off = py_stmt_errline pp cc.
+Proof.
+  intros pp lines k off n Hpp HF (l & code & cm & cc & Hn & Hs & Hsic & Hemx & Hrej & ->).
+  assert (Hl : no_nl l) by (rewrite Forall_forall in HF; apply HF; eapply nth_error_In; eauto).
+  assert (Hcode : no_nl code).
+  { pose proof (stmt_code_no_nl l Hl) as H. rewrite Hsic in H. exact H. }
+  pose proof (emx_count_nl _ _ _ _ _ HF Hcode Hemx) as Hcnt.
+  pose proof (Hpp cc Hrej) as Hoff.
+  exists cc. rewrite (nth_error_nth _ _ EmptyString Hn). rewrite Hsic. cbn [fst]. split; [exact Hemx|]. lia.
 Qed.
 
 (* the line kinds (a), (b), (c) *)
@@ -1509,7 +1524,7 @@ Proof.
     destruct (extract_multiline_expression lines i code) as [cc n] eqn:Eemx.
     destruct (py_stmt_ok pp cc) eqn:Erej; [apply ds_ok|].
     apply ds_dsyn. right. split; [reflexivity|].
-    exists i, (py_stmt_errline pp cc), n. split; [|reflexivity].
+    exists i, (Nat.min (py_stmt_errline pp cc) (n - 1)), n. split; [|reflexivity].
     exists line, code, cm, cc. repeat split; auto. }
   destruct (startswith line "+ " || startswith line "* ") eqn:Echoice.
   { apply ds_bind.
@@ -1800,27 +1815,22 @@ Proof.
   rewrite culprit_not_stmt_site in Hc. discriminate.
 Qed.
 
-(* ... and line i lies inside that statement, which lies inside the source -- when Python blames a line of the text
-   it was given (errline_inside) and the lines are lines of source.split("\n") (no line feed inside a line) *)
+(* ... and line i lies inside that statement, which lies inside the source: for every oracle and every line list
+   (core.py clamps the offset Python blames to the lines the statement consumed: fix F14c) *)
 Lemma culprit_stmt_site_lemma : forall pp is_call ls i,
-  errline_inside pp -> Forall no_nl ls ->
   parse_real pp is_call ls = PDiag (DSyntax stmt_site i) -> inside_statement (prepass ls) i.
 Proof.
-  intros pp is_call ls i Hpp HF H. apply (stmt_blamed_inside pp); auto.
-  - apply prepass_no_nl; exact HF.
-  - eapply stmt_site_blamed_lemma; eauto.
+  intros pp is_call ls i H. apply (stmt_blamed_inside pp). eapply stmt_site_blamed_lemma; eauto.
 Qed.
 
 Lemma inside_statement_in_range : forall lines i, inside_statement lines i -> i < length lines.
 Proof. intros lines i (k & l & _ & _ & _ & H1 & H2). lia. Qed.
 
-(* EVERY SyntaxError carries an index inside the source, under the two premises of culprit_stmt_site_lemma (they are
-   only used for "stmt:python-syntax"); without them: stmt_index_past_end_refuted_lemma *)
+(* EVERY SyntaxError carries an index inside the source: every site, every oracle, every line list *)
 Lemma diag_index_in_range_lemma : forall pp is_call ls site i,
-  errline_inside pp -> Forall no_nl ls ->
   parse_real pp is_call ls = PDiag (DSyntax site i) -> located site = true -> i < length ls.
 Proof.
-  intros pp is_call ls site i Hpp HF H _.
+  intros pp is_call ls site i H _.
   destruct (diag_classified_lemma _ _ _ _ _ H) as [[Hk _]|[-> _]]; [exact Hk|].
   rewrite <- prepass_length_lemma. apply inside_statement_in_range. eapply culprit_stmt_site_lemma; eauto.
 Qed.
@@ -2161,25 +2171,38 @@ Proof.
   vm_compute. repeat split; reflexivity.
 Qed.
 
-(* kind (s) without the premise errline_inside (finding F14c): core.py adds Python's `e.lineno - 1` to the index of
-   the `~` line without clamping it to the statement, and CPython counts a bare carriage return inside the statement
-   as a line break.  The one-line statement  ~ a = 1<CR>x9 b c  on line 2 of a 4-line source: ast.parse says
-   lineno 10 ("unexpected indent"), the real compiler says "on line 11" and shows no source line at all; the model,
-   with the oracle answering as CPython does for that statement, carries index 10 >= 4. *)
+(* regression example of finding F14c (repaired): CPython counts a bare carriage return inside the statement as a
+   line break, the compiler does not.  The one-line statement  ~ a = 1<CR>x9 b c  on line 2 of a 4-line source:
+   ast.parse says lineno 10 ("unexpected indent"); before the fix core.py added `e.lineno - 1` unclamped and said
+   "on line 11" with no source line shown (the model carried index 10 >= 4).  Now, with the oracle answering as
+   CPython does for that statement (offset 9, which violates errline_inside), the index is 1: the `~` line, inside the
+   statement.  Replayed on the repaired compiler: "on line 2".  The second witness, offset 8 blamed inside a
+   three-line statement: index 4, the statement's last line ("on line 5"). *)
 Definition CRs (n : nat) : string := concat_all (repeat (String (ascii_of_nat 13) EmptyString) n).
 Definition cr_stmt : string := ("a = 1" ++ CRs 9 ++ " b c")%string.
 Definition cr_pp : pyparse :=
   mkPyparse (fun c => negb (String.eqb c cr_stmt)) (fun _ => Some (0, []))
             (fun c => if String.eqb c cr_stmt then 9 else 0).
 Definition L_stmt_cr : list string := [":: Start"; ("~ " ++ cr_stmt)%string; "hello"; ""].
-Lemma stmt_index_past_end_refuted_lemma :
-  exists pp is_call ls i,
-    Forall no_nl ls /\ parse_real pp is_call ls = PDiag (DSyntax stmt_site i) /\
-    length ls <= i /\ ~ inside_statement (prepass ls) i.
+Definition cr_stmt2 : string :=
+  ("xs = [" ++ String (ascii_of_nat 10) "" ++ "  1," ++ CRs 8 ++ "  2 3," ++ String (ascii_of_nat 10) "" ++ "]")%string.
+Definition cr_pp2 : pyparse :=
+  mkPyparse (fun c => negb (String.eqb c cr_stmt2)) (fun _ => Some (0, []))
+            (fun c => if String.eqb c cr_stmt2 then 9 else 0).
+Definition L_stmt_cr2 : list string :=
+  [":: Start"; "t"; "~ xs = ["; ("  1," ++ CRs 8 ++ "  2 3,")%string; "]"; "after"; ""].
+Lemma stmt_index_clamped_regression_lemma :
+  ~ errline_inside cr_pp /\ Forall no_nl L_stmt_cr /\
+  parse_real cr_pp (fun _ => true) L_stmt_cr = PDiag (DSyntax stmt_site 1) /\
+  inside_statement_b (prepass L_stmt_cr) 1 = true /\
+  ~ errline_inside cr_pp2 /\ Forall no_nl L_stmt_cr2 /\
+  parse_real cr_pp2 (fun _ => true) L_stmt_cr2 = PDiag (DSyntax stmt_site 4) /\
+  inside_statement_b (prepass L_stmt_cr2) 4 = true /\ stmt_covers (prepass L_stmt_cr2) 4 2 = true.
 Proof.
-  exists cr_pp, (fun _ => true), L_stmt_cr, 10.
-  split; [repeat constructor|]. split; [vm_compute; reflexivity|]. split; [vm_compute; lia|].
-  intros Hin. apply inside_statement_in_range in Hin. vm_compute in Hin. lia.
+  split. { intros H. specialize (H cr_stmt eq_refl). vm_compute in H. lia. }
+  split; [repeat constructor|]. split; [vm_compute; reflexivity|]. split; [vm_compute; reflexivity|].
+  split. { intros H. specialize (H cr_stmt2 eq_refl). vm_compute in H. lia. }
+  split; [repeat constructor|]. split; [vm_compute; reflexivity|]. split; vm_compute; reflexivity.
 Qed.
 
 (* kind (d) happens (known finding F14b, no line): the unknown target stands on line 3; dummy index 0 *)
@@ -2219,7 +2242,8 @@ Print Assumptions diag_index_in_range_lemma.
 Print Assumptions diag_index_in_range_line_sites_lemma.
 Print Assumptions stmt_site_blamed_lemma.
 Print Assumptions culprit_stmt_site_lemma.
-Print Assumptions stmt_index_past_end_refuted_lemma.
+Print Assumptions stmt_index_clamped_regression_lemma.
+Print Assumptions clamp_is_identity_lemma.
 Print Assumptions clamped_stmt_index_inside_lemma.
 Print Assumptions split_lines_no_nl_lemma.
 Print Assumptions diag_classified_lemma.
